@@ -48,10 +48,13 @@ Definition w_share_malformed : packet := sub1 (STR_SHARE ++ [47; 43; 47; 116]) N
 Lemma refuted_shared_filter_malformed : accepted_violating st_all w_share_malformed 1 RSharedFilterMalformed.
 Proof. witness. Qed.
 
-(* topic "a<NUL>b" *)
+(* topic "a<NUL>b": was accepted (D23) before /repo a2fa1c5; now rejected at submission, as a topic
+   name and as a topic filter *)
 Definition w_topic_nul : packet := Publish (pub0 [97; 0; 98]).
-Lemma refuted_topic_nul : accepted_violating st_all w_topic_nul 1 RTopicNul.
-Proof. witness. Qed.
+Lemma fixed_topic_nul :
+  validate_outbound w_topic_nul = Err EPacketValidationFailure /\
+  is_valid_topic_filter_internal [97; 0; 98] (Some (true, true)) None = Ok false.
+Proof. split; vm_compute; reflexivity. Qed.
 
 (* will topic "#" *)
 Definition w_will_topic : packet := connect_will [35].
